@@ -592,10 +592,11 @@ def gone_connection(ctx):
     if cod is None or dis is None:
         R.bad(rule, 'bumble.device.Connection.cancel_on_disconnection / Device.disconnect', 'anchor missing')
         return
-    tests = [n for n in walk_local(cod) if isinstance(n, ast.If) and 'self.device.connections' in norm(n.test) and 'self' in norm(n.test)]
+    # identity, not membership: the controller recycles handles, so after a reconnection the closed object's handle is a key again
+    tests = [n for n in walk_local(cod) if isinstance(n, ast.If) and any(isinstance(c_, ast.Compare) and len(c_.ops) == 1 and isinstance(c_.ops[0], (ast.Is, ast.IsNot)) and 'self.device.connections' in norm(c_.left) and norm(c_.comparators[0]) == 'self' for c_ in ast.walk(n.test))]
     cancels = [c for t in tests for c in calls_in(t) if call_attr(c) in ('cancel', 'set_exception')]
-    R.check(bool(tests) and bool(cancels), rule, 'bumble.device.Connection.cancel_on_disconnection | already disconnected', 'an awaitable tied to a connection that is no longer registered is cancelled at once',
-            'cancel_on_disconnection only listens for a future `disconnection` event: when the Disconnection Complete was processed between the Command Status and this call, the listener is attached to a dead connection and the caller (get_remote_le_features, encrypt, authenticate, ...) waits for ever', p.loc(cod))
+    R.check(bool(tests) and bool(cancels), rule, 'bumble.device.Connection.cancel_on_disconnection | already disconnected', 'an awaitable tied to a connection object that is no longer the one registered under its handle is cancelled at once',
+            'cancel_on_disconnection does not test that *this object* is still registered (identity; handles are recycled) or only listens for a future `disconnection` event: when the Disconnection Complete was processed between the Command Status and this call, the listener is attached to a dead connection and the caller (get_remote_le_features, encrypt, authenticate, ...) waits for ever', p.loc(cod))
     first_reg = min([c.lineno for c in calls_in(dis) if call_attr(c) in ('on', 'once') and (dotted(c.func.value) or '') == 'connection'] or [10 ** 9])
     refuse = [n for n in walk_local(dis) if isinstance(n, ast.If) and n.lineno < first_reg and any(isinstance(x, ast.Raise) for x in n.body) and all(t in norm(n.test) for t in ('self.connections', 'self.sco_links', 'self.cis_links'))]
     R.check(bool(refuse), rule, 'bumble.device.Device.disconnect | link already gone', 'a link found in none of the device tables is refused before anything is sent',
